@@ -25,6 +25,7 @@ type c15Case struct {
 	HB      int      `json:"hb"`
 	DelayMs int      `json:"answer_delay_ms,omitempty"`  // local-logout: delay before the peer's answer
 	Buf     int      `json:"buf,omitempty"`              // outgoing queue size (default 10)
+	Veto    bool     `json:"veto,omitempty"`             // the application has a logout callback that returns false (it ends the chain of callbacks after it): Stop ends on the answer all the same
 	LogonMs int      `json:"logon_timeout_ms,omitempty"` // acceptor's LogonTimeout (default 30 s): a time-out for a logon that never comes must not touch a session that did log on
 }
 
@@ -95,6 +96,9 @@ func c15Run(c c15Case) (string, string) {
 	}
 	w.take()
 	logoutEv0 := w.logoutEv
+	if c.Veto {
+		w.s.OnChangeState(utils.EventLogout, func() bool { return false })
+	}
 	switch c.Ending {
 	case "peer-logout":
 		w.in(w.msg("5"))
@@ -274,6 +278,13 @@ func runC15(R *vlib.Out) {
 			for _, p := range prefixes {
 				if len(p) == 0 && !try(c15Case{Role: role, CloseMs: ct, Ending: "logout-in-logon-callback", HB: 30}) {
 					return
+				}
+				if len(p) == 0 {
+					for _, a := range []string{"never", "before", "at", "after"} {
+						if !try(c15Case{Role: role, CloseMs: ct, Ending: "stop", Answer: a, HB: 30, Veto: true}) {
+							return
+						}
+					}
 				}
 				if !try(c15Case{Role: role, CloseMs: ct, Prefix: p, Ending: "peer-logout", HB: 30}) {
 					return
